@@ -30,8 +30,9 @@ PATTERNS = [
     r"sub/.*",
     r"zzz_nomatch",
 ]
-TARGETS = ["notes.zo", "20240304.zo", "work_log.zo", "sub/new/deep.zo", "noext", "other.zo", "20241399.zo"]
-VARMAPS = [{}, {"name": "given"}, {"date": "20240102"}]
+TARGETS = ["notes.zo", "20240304.zo", "work_log.zo", "sub/new/deep.zo", "noext", "other.zo", "20241399.zo",
+           "20240131.zo", "20240430.zo", "20240229.zo"]
+VARMAPS = [{}, {"name": "given"}, {"date": "20240102"}, {"date": "20241231"}]
 
 
 def template_text(i) -> str:
@@ -258,7 +259,9 @@ def _cases(ctx):
                 for overwrite in (False, True):
                     for explicit in (False, True):
                         for vi in range(len(VARMAPS)):
-                            if ctx.quick and len(pmap) == 2 and vi == 2 and overwrite:
+                            if ctx.quick and len(pmap) == 2 and vi >= 2 and overwrite:
+                                continue
+                            if ctx.quick and ti >= 7 and (explicit or vi == 1):
                                 continue
                             cases.append(["fn", pmap, ti, exists, overwrite, explicit, vi])
     # several initialisations in one process from same-named templates
@@ -270,7 +273,9 @@ def _cases(ctx):
     # through the CLI: every map of size <= 1 plus a few pairs
     cli_maps = [[]] + [[i] for i in range(len(PATTERNS))] + [[1, 0], [0, 1], [2, 1], [3, 4]]
     for pmap in cli_maps:
-        for ti in range(len(TARGETS) - 1):
+        for ti in range(len(TARGETS)):
+            if ti == 6:
+                continue
             for exists in (False, True):
                 for overwrite in (False, True):
                     explicit = (ti + len(pmap)) % 2 == 0
